@@ -48,6 +48,7 @@ static void sec_sh(Ctx& c, uint64_t idx) {
   vh::Rng& r = c.rng;
   int N = pick_degree(c);
   if (idx < 18) { static const int lad[] = {0, 1, 2, 3, 8, 20, 60, 200, 360}; N = lad[idx % 9]; }   // every degree of the ladder x both normalisations, every run
+  set_degree_factor(N);
   unsigned norm = idx < 18 ? (unsigned)(idx / 9) : (unsigned)r.below(2);
   ref::HarmNorm rn = norm == SphericalHarmonic::FULL ? ref::HARM_FULL : ref::HARM_SCHMIDT;
   const char* nname = norm == SphericalHarmonic::FULL ? "full" : "schmidt";
